@@ -8,7 +8,8 @@ Line protocol of C17 (all lists `,`-separated, `-` = empty):
 * `st <op;op;...>` with `F` | `D:<names>` | `Q:<name>:<chain>:<doms>` | `U:<leader><acct>` | `C`
 * `cyc <cycle;cycle;...>` with `<p|f><leader><acct>/<dirty>/<name:chain:doms+...>`
 * `conv <cycle|cycle|...>` with `<p|f><leader><acct>@<ing&ing...>`,
-  `ing = name~rulehost~<acme 0|1>~chain~<secret=hosts+secret=hosts...>`
+  `ing = name~rulehost~<acme 0|1|2>~chain~<secret=hosts+secret=hosts...>` (1 = annotation
+  `cert-signer: acme`, 2 = `kubernetes.io/tls-acme: "true"` with `AcmeTrackTLSAnn`)
   the three of them `=> <adds>^<removes>;...#<items>` (one `adds^removes` per AcmeUpdate, items
   `|`-separated, an item is the queue string `name,chain,d1,d2`, final storages after `#`)
 -/
@@ -150,8 +151,8 @@ def parseTls (s : String) : Option Tls :=
 def parseIng (s : String) : Option Ing :=
   match s.splitOn "~" with
   | [n, r, a, ch, tls] => do
-    pure { name := n, rule := r, acme := ← parseBool a, chain := if ch = "-" then "" else ch,
-           tls := ← parseList parseTls tls "+" }
+    pure { name := n, rule := r, acme := ← (if a = "2" then some true else parseBool a), chain := if ch = "-" then "" else ch,
+           tls := ← parseList parseTls tls "+", viaTlsAcme := a = "2" }
   | _ => none
 
 def parseConvCycle (s : String) : Option ConvCycle :=
@@ -183,7 +184,7 @@ def handle (args : List String) (impl : String) : Verdict :=
       let m := notify i
       match parseVOut impl with
       | some o => { model := showVOut m, agree := m = o, oracle := oracleVerify i o }
-      | none => { model := showVOut m, agree := false, oracle := some ("panic-or-unparsable:" ++ impl) }
+      | none => { model := showVOut m, agree := false, oracle := some "panic-verify" }
     | _, _, _, _, _, _ => bad "parse-verify"
   | ["st", ops] =>
     match parseList parseOp ops ";" with
@@ -199,7 +200,7 @@ def handle (args : List String) (impl : String) : Verdict :=
       let r := runCycles {} cs
       let orc := match parseRun impl with
         | some (us, _) => oracleCycles {} cs us
-        | none => some "panic-or-unparsable"
+        | none => some "panic-cycles"
       { model := showRun r.2 r.1.items, agree := agreeRun r.2 r.1.items impl, oracle := orc,
         trivial := r.2.all (·.isEmpty) }
     | none => bad "parse-cyc"
@@ -209,7 +210,7 @@ def handle (args : List String) (impl : String) : Verdict :=
       let r := runConv {} cs
       let orc := match parseRun impl with
         | some (us, _) => oracleConv [] cs us
-        | none => some "panic-or-unparsable"
+        | none => some "panic-converter"
       { model := showRun r.2 r.1.st.items, agree := agreeRun r.2 r.1.st.items impl, oracle := orc,
         trivial := r.2.all (·.isEmpty) }
     | none => bad "parse-conv"
